@@ -173,6 +173,16 @@ func (i *Interface) checkCache(key string) record.Record {
 	if err == nil {
 		r, ok := cacheVal.(record.Record)
 		if ok {
+			// Records are cached as objects and may have been deleted or expired
+			// since they were cached, eg. by Delete() or SetAbsoluteExpiry().
+			// Apply the same validity check as for records loaded from storage.
+			r.Lock()
+			valid := r.Meta().CheckValidity()
+			r.Unlock()
+			if !valid {
+				i.cache.Remove(key)
+				return nil
+			}
 			return r
 		}
 	}
